@@ -4,6 +4,8 @@ import (
 	"fmt"
 	"strings"
 
+	"github.com/yuin/goldmark/ast"
+
 	"verif/internal/astcheck"
 	"verif/internal/core"
 )
@@ -32,6 +34,14 @@ type alphaSpec struct {
 }
 
 func runC05(r *core.Run) {
+	for _, cn := range []string{"all+attr+autoid", "gfm"} {
+		sharedContextSub(r, "shared-context/"+cn, "every tree satisfies the same per-node invariants", core.MustCfg(cn), c12StructuredDocs(r.Quick()),
+			func(s *core.Sub, cfg core.Cfg, d, out []byte, tree ast.Node, hist []string) {
+				for _, p := range astcheck.Check(tree, d) {
+					s.Violate(p.Sig+"|shared-context", cfg.String(), d, hist, p.Detail, "well-formed tree", p.Sig)
+				}
+			})
+	}
 	specs := []alphaSpec{
 		{"block", core.ABlock, 5, 6, []string{"core", "all+attr+autoid"}},
 		{"inline", core.AInline, 4, 5, []string{"core", "all+attr+autoid"}},
